@@ -21,6 +21,10 @@ _PREPS_CLIENT = [
     [("extended",)],
     [("bind", "simple")],
     [("bind", "sasl")],
+    # prior histories that contain REFUSED calls (bookkeeping must not be left half-updated)
+    [("bind", "simple"), ("try", ("search",)), ("try", ("extended",))],
+    [("search",), ("try", ("bind", "simple")), ("try", ("search",))],
+    [("try", ("search",)), ("extended",)],
 ]
 _PREPS_SERVER = _PREPS_CLIENT
 
@@ -56,18 +60,20 @@ def unit(draw: t.Any, side: str, nprep: int) -> t.Any:
     kind = draw(st.sampled_from(["mut", "mut", "mut", "mut", "valid", "rand", "like", "deep", "trunc", "zero-prim", "terminator"]))
     if kind == "terminator":
         # the designed terminations with generated content: a notice of disconnection (any result, any length of
-        # diagnostic text) or an unbind, sent to either side
+        # diagnostic text) or an unbind, sent to either side - as they are, or with 1-2 single-node mutations
         m = draw(gens.memo("c05.terminator", lambda: st.one_of(
             gens.message(kinds=["extendedResp"], ids=st.integers(0, 3)).map(lambda m: dict(m, name=_NOTICE)),
             gens.message(kinds=["unbindRequest"], ids=st.integers(0, 3)))))
-        return ("valid", m, None)
+        if draw(st.booleans()):
+            return ("valid", m, None)
+        return ("mut", m, None, False, draw(gens.memo("c05.muts", lambda: st.lists(mutation(), min_size=1, max_size=2))))
     if kind == "rand":
         return ("rand", draw(st.binary(max_size=48)))
     if kind == "like":
         return ("rand", draw(gens.memo("c05.like", _leading_like_message)))
     if kind == "deep":
         return ("deep", draw(st.sampled_from([10, 40, 100, 200, 330, 500, 1000, 2500, 5000])), draw(st.integers(0, 3)))
-    rid = draw(st.integers(0, nprep - 1)) if nprep and draw(st.integers(0, 3)) else None
+    rid = draw(st.integers(0, nprep)) if nprep and draw(st.integers(0, 3)) else None  # nprep itself = the next, never issued id
     if kind == "valid":
         if side == "server":
             m = draw(gens.memo("c05.valid.server", lambda: gens.message(kinds=["searchRequest", "extendedReq"], filt=gens.filters(max_leaves=3), ids=st.integers(100, 400))))
@@ -116,6 +122,8 @@ def unit_bytes(u: t.Any, ids: t.List[int]) -> t.Tuple[bytes, str]:
     rid = u[2]
     if rid is not None and rid < len(ids):
         m["id"] = ids[rid]
+    elif rid is not None and ids:
+        m["id"] = max(ids) + 1  # the id a refused call would have used
     if k == "valid":
         return rfc4511.encode(m), "valid"
     libenc = u[3]
@@ -257,17 +265,24 @@ class EveryNodeEmpty(Part):
 
     def enumerate(self, tier: str, shard: int, nshards: int) -> t.Iterable[t.Any]:
         k = 0
-        for tname, m in msgcheck._templates().items():
+        templates = dict(msgcheck._templates())
+        res = {"code": 52, "matched": "dc=x", "diag": "going down \u00e9", "referral": ["ldap://other"]}
+        templates["notice"] = {"kind": "extendedResp", "id": 0, "controls": [], "result": res, "name": _NOTICE, "value": b"v"}
+        templates["notice/long"] = {"kind": "extendedResp", "id": 0, "controls": [("generic", "1.2", True, b"c")],
+                                    "result": dict(res, diag="x" + "\u20ac" * 60), "name": _NOTICE, "value": None}
+        templates["unbind/ctrl"] = {"kind": "unbindRequest", "id": 0, "controls": [("paged", True, 3, b"ck")]}
+        for tname, m in templates.items():
             data = rfc4511.encode(m)
             nodes = mutate.index_nodes(data)
             for side in ("client", "server"):
                 for i in range(len(nodes)):
-                    for op in ("empty", "len+1", "len-1", "constructed", "delete"):
+                    ops = [(op, 0) for op in ("empty", "len+1", "len-1", "constructed", "delete")] + [("bad-utf8", a) for a in range(8)]
+                    for op, arg in ops:
                         for repair in (True, False):
                             if k % nshards == shard:
                                 yield {"side": side, "prep": [("search",)], "mode": "one", "cuts": [], "containers": [0],
                                        "units": [("mut", m, 0 if side == "client" else None, False,
-                                                  [{"node": i, "op": op, "arg": 0, "repair": repair, "rnd": b""}])]}
+                                                  [{"node": i, "op": op, "arg": arg, "repair": repair, "rnd": b""}])]}
                             k += 1
                 for at in range(len(data) + 1):
                     if k % nshards == shard:
@@ -334,8 +349,8 @@ PROP = Property(
         "wrap node, indefinite length, appended junk; ancestor lengths repaired or not), truncations, zero-length "
         "primitives, filters/sequences nested 10..5000 deep - delivered in one piece, byte-wise or at generated cuts "
         "(bytes/bytearray/memoryview) to a client or server with a prior history (fresh, operations in progress, "
-        "binding); plus an enumerated sweep over every node x {empty,len+-1,constructed flip,delete} and every "
-        "truncation offset of one message per kind. Oracle: every receive returns a list of LDAPMessage or raises "
+        "binding, refused calls before); plus an enumerated sweep over every node x {empty, len+-1, constructed flip, delete, 8 "
+        "kinds of invalid UTF-8} and every truncation offset of one message per kind and of the designed terminations. Oracle: every receive returns a list of LDAPMessage or raises "
         "ProtocolError; afterwards state is CLOSED, further receive calls raise ProtocolError, and the attached "
         "response strictly reference-decodes to a notice of disconnection (server) / UnbindRequest id 0 (client). "
         "Non-trivial = input got past the envelope (complete SEQUENCE header + message id) or yielded >=1 message "
